@@ -28,10 +28,11 @@ CONSTANTS
   FailSaves = FALSE
   Focus = FALSE
   Record = FALSE
+  Scrapes = FALSE
   Marking = FALSE
   WindAt = 0
   Gaps = {}
   Bugs = {"F5"}
 VIEW view
-INVARIANTS C01 C02 C03 C04 C05 C06 C08 C11 C12 C13 C14 C15 StoreAgrees
+INVARIANTS C16 C01 C02 C03 C04 C05 C06 C08 C11 C12 C13 C14 C15 StoreAgrees
 CHECK_DEADLOCK FALSE
